@@ -309,6 +309,9 @@ func doSaveGuard(repo, out string) error {
 	fmt.Fprintf(&sb, "def writeTarget : String := %s\n", strconv.Quote(writeTarget))
 	fmt.Fprintf(&sb, "def mkdirTarget : String := %s\n", strconv.Quote(mkdirTarget))
 	fmt.Fprintf(&sb, "def phoneSource : String := %s\n", strconv.Quote(phoneSource))
+	// the phone is the header phone of the most recent terminal message, however the ExtensionFields value is reached
+	// (progress.ExtensionFields.… or a local copy of it)
+	fmt.Fprintf(&sb, "def phoneIsHeaderPhone : Bool := %v\n", strings.HasSuffix(phoneSource, ".RecentTerminalMessage.Header.TerminalPhoneNo"))
 	fmt.Fprintf(&sb, "def creators : List String := %s\n", q(creators))
 	fmt.Fprintf(&sb, "def untranslated : List String := %s\n", q(c.untr))
 	fmt.Fprintf(&sb, "def recognised : Bool := %v\n", recognised)
